@@ -296,6 +296,8 @@ def rzleLoop : Nat → Imp → Nat → Option Nat → List Nat → Option Imp
     if some eid = ignored then rzleLoop f s self ignored rest else
     match s.t.edge? eid, s.t.node? self with
     | some e, some sn =>
+      -- the C++ iterates the LIVE list: an edge met by the iterator is in `self->edges` now
+      if !sn.edges.contains eid then none else
       let dec : Option (Nat × Nat × Imp) :=
         if !e.hasFixedRoute && zeroLength s.t e then
           match e.followFrom self with
@@ -353,9 +355,9 @@ def scanOthers (self : Nat) (selfPt currPt : Pt) (curr : Nat) : List Nat → Sca
   | [], sc => some sc
   | e2 :: rest, sc =>
     if e2 = curr then scanOthers self selfPt currPt curr rest sc else
-    match sc.t.edge? e2 with
-    | none => none
-    | some oe =>
+    match sc.t.edge? e2, sc.t.node? self with
+    | some oe, some sn =>
+      if !sn.edges.contains e2 then none else      -- (live list, as above)
       if oe.hasFixedRoute then scanOthers self selfPt currPt curr rest { sc with other := sc.other ++ [e2] } else
       match oe.followFrom self with
       | none => none
@@ -371,6 +373,7 @@ def scanOthers (self : Nat) (selfPt currPt : Pt) (curr : Nat) : List Nat → Sca
             | none => none
             | some (t', _, _) => scanOthers self selfPt currPt curr rest { sc with t := t', common := sc.common ++ [e2] }
           else scanOthers self selfPt currPt curr rest { sc with other := sc.other ++ [e2] }
+    | _, _ => none
 
 /-- other end of edge `e` seen from `self` in tree `t` -/
 def farEnd (t : HTree) (e self : Nat) : Option Nat :=
@@ -400,6 +403,7 @@ def moveLoop (s : Imp) (self : Nat) (sj : Nat) : List Nat → Option MoveResult
   | curr :: rest =>
     match s.t.node? self, s.t.edge? curr with
     | some sn, some ce =>
+      if !sn.edges.contains curr then none else    -- (live list)
       match ce.followFrom self with
       | none => none
       | some cnId =>
